@@ -46,6 +46,41 @@
         std::mem::forget(r);
     }
 
+//# ob name=safe_join_clean_segments_ascii tier=thorough fn=loader::safe_join kind=bounded bound="all template names of length <= 3 over the alphabet {'.', '/', backslash, 'a'} (the characters the segment rule distinguishes); PathBuf::push replaced by a recording stub" stubs=push stmt="safe_join returns Some exactly when no '/'-separated segment starts with '.' or contains a backslash, and every segment it pushes is clean (no leading dot, no separator); with one push per segment"
+    // thorough tier: 486 s (measured while another check was running); complements safe_join_clean_segments (all UTF-8, <= 2
+    // bytes) with one more byte over the characters the rule distinguishes, and adds the push count
+    #[kani::proof]
+    #[kani::unwind(6)]
+    #[kani::stub(std::path::PathBuf::push, push_stub)]
+    fn safe_join_clean_segments_ascii() {
+        let mut b: [u8; 3] = [0; 3];
+        let n: usize = kani::any();
+        kani::assume(n <= 3);
+        let mut i = 0;
+        while i < 3 { let k: u8 = kani::any(); kani::assume(k < 4); b[i] = match k { 0 => b'.', 1 => b'/', 2 => b'\\', _ => b'a' }; i += 1; }
+        let s = unsafe { std::str::from_utf8_unchecked(&b[..n]) };
+        let base = Path::new("b");
+        let r = safe_join(base, s);
+        let mut expect_some = true;
+        let mut at_seg_start = true;
+        let mut segs = 1usize;
+        let mut i = 0;
+        while i < n {
+            let c = b[i];
+            if c == b'/' { at_seg_start = true; segs += 1; } else {
+                if at_seg_start && c == b'.' { expect_some = false; }
+                if c == b'\\' { expect_some = false; }
+                at_seg_start = false;
+            }
+            i += 1;
+        }
+        assert!(r.is_some() == expect_some);
+        if r.is_some() { unsafe { assert!(!DIRTY); assert!(PUSHES == segs); } }
+        kani::cover!(r.is_some() && n == 3, "accepted");
+        kani::cover!(r.is_none() && n == 3, "rejected");
+        std::mem::forget(r);
+    }
+
 //# ob name=loader_confinement_native role=native_bounded fn=loader::{safe_join,path_loader}+State::get_template kind=bounded bound="8 unusual loader bases (empty path, `.`, relative with trailing separators / dots) x 9 absolute or climbing names to a canary outside, from the host and computed in templates; all names of 1..=4 segments over the segment alphabet {'', '.', '..', '...', 'a', '.a', 'a.', 'a..b', 'a\\\\b', '..\\\\a', NUL, '%2e%2e', U+2024 dots, 'sub', 'canary.txt', '<absolute base>', '<absolute outside>'} joined by '/', with optional leading/trailing/double slashes (about 2*10^5 names), against a real directory tree with canary files outside the base; direct loader calls and include/extends/import with computed names" stmt="the path loader only ever returns the content of files located beneath its base directory: for every name it either returns such a file's content or reports the template as missing/unreadable; it never returns the content of a canary file placed outside the base"
     fn loader_confinement_native() {
         use std::fs;
